@@ -21,6 +21,10 @@ def main (args : List String) : IO UInt32 := do
     match env.find? c with
     | some (.thmInfo _) =>
       if (c.toString.splitOn "._").length > 1 then continue
+      -- skip compiler-generated equation / unfolding / match lemmas that get realised in this module
+      let last := match c with | .str _ s => s | _ => ""
+      if last.startsWith "eq_" || last == "eq_def" || last.startsWith "match_" || last.startsWith "proof_"
+         || last.endsWith "_unfold" || last.startsWith "sizeOf_" || last.startsWith "injEq" || last == "inj" then continue
       let ctx : Core.Context := { fileName := "<audit>", fileMap := default }
       let cst : Core.State := { env := env }
       let (arr, _) ← (collectAxioms c : CoreM (Array Name)).toIO ctx cst
